@@ -116,7 +116,7 @@ func (em *Emitter) Calls(n int) { em.calls += int64(n) }
 
 func fatalf(f string, a ...interface{}) {
 	fmt.Fprintf(os.Stderr, "drv: "+f+"\n", a...)
-	os.Exit(2)
+	os.Exit(4) // 2 is what the Go runtime uses for fatal errors inside the library (out of memory, stack overflow)
 }
 
 // ---- watchdog: a library call that does not return is a behaviour, not a framework fault.
